@@ -91,7 +91,7 @@ def gen_forward(rng, tier):
     n = len(case["nodes"])
     case["det"] = det
     case["size"] = rng.choice([1, 2, 50, 400]) if det else rng.choice([1, 3, 3000])
-    case["seed"] = rng.randrange(10 ** 6)
+    case["seed"] = rng.choice([0, rng.randrange(10 ** 6), rng.randrange(10 ** 6), rng.randrange(10 ** 6)])     # 0 is a legal seed
     case["latents"] = [v for v in range(n) if rng.random() < .25]
     case["include_latents"] = rng.random() < .5
     return case
@@ -107,6 +107,12 @@ def run_forward(case, drv):
     tags = dict(det=case["det"], size=case["size"], n=n)
     try:
         s = BayesianModelSampling(bn)
+        if case["seed"] % 3 == 1:
+            # the sampler object has already produced a large likelihood-weighted sample: nothing may carry over
+            try:
+                s.likelihood_weighted_sample(evidence=[], size=300, seed=5, show_progress=False)
+            except Exception:
+                pass
         df = s.forward_sample(size=case["size"], seed=case["seed"], include_latents=case["include_latents"], show_progress=False)
         df2 = BayesianModelSampling(bn).forward_sample(size=case["size"], seed=case["seed"], include_latents=case["include_latents"],
                                                        show_progress=False)
@@ -163,7 +169,7 @@ def gen_ev(rng, tier):
     case["ev"] = [[v, rng.randrange(case["card"][v])] for v in ev]
     case["kind"] = rng.choice(["rejection", "lw", "lw"])
     case["size"] = rng.choice([1, 5, 2000])
-    case["seed"] = rng.randrange(10 ** 6)
+    case["seed"] = rng.choice([0, rng.randrange(10 ** 6), rng.randrange(10 ** 6), rng.randrange(10 ** 6)])     # 0 is a legal seed
     return case
 
 
@@ -188,8 +194,8 @@ def run_ev(case, drv):
             # the sampler object has been used before, with other evidence states / another method: nothing may carry over
             try:
                 other = [State(pn[v], gen.lab(labels[v][(i + 1) % card[v]])) for v, i in case["ev"]]
-                s.likelihood_weighted_sample(evidence=other, size=3, seed=1, show_progress=False)
-                s.forward_sample(size=2, seed=2, show_progress=False)
+                s.likelihood_weighted_sample(evidence=other, size=200, seed=1, show_progress=False)
+                s.forward_sample(size=300, seed=2, show_progress=False)
             except Exception:
                 pass
         if case["kind"] == "rejection":
@@ -309,7 +315,7 @@ def gen_sim(rng, tier):
     case["var"] = [v, rng.randrange(case["card"][v])]
     case["like"] = [rs(Fraction(rng.randint(1, 9), 10)) for _ in range(case["card"][v])]
     case["size"] = rng.choice([5, 2500])
-    case["seed"] = rng.randrange(10 ** 6)
+    case["seed"] = rng.choice([0, rng.randrange(10 ** 6), rng.randrange(10 ** 6), rng.randrange(10 ** 6)])     # 0 is a legal seed
     return case
 
 
